@@ -7,6 +7,7 @@ require (
 	github.com/bbva/qed v0.0.0
 	github.com/hashicorp/raft v1.1.1
 	github.com/prometheus/client_golang v0.9.2
+	google.golang.org/grpc v1.23.1
 )
 
 require (
@@ -40,7 +41,6 @@ require (
 	golang.org/x/sys v0.0.0-20190924154521-2837fb4f24fe // indirect
 	golang.org/x/text v0.3.2 // indirect
 	google.golang.org/genproto v0.0.0-20190916214212-f660b8655731 // indirect
-	google.golang.org/grpc v1.23.1 // indirect
 	gopkg.in/yaml.v2 v2.2.2 // indirect
 )
 
